@@ -23,12 +23,12 @@ theorem facts_guards :
       ["name==\"\"||(!abs&&keepRelative)", "dir==rows&&_>=num", "_+=offset;_<1", "_>TotalRows"] ∧
     Facts.C07.guardsOperandRef = ["_!=nil"] ∧
     Facts.C07.guardsOperand =
-      ["len(_)==2", "sheetName==\"\"", "sheet!=sheetName", "_==36",
+      ["_:=strings.LastIndex(_.TValue,\"!\");_!=-1", "sheetName==\"\"", "sheet!=sheetName", "_==36",
        "_,_,_,_=adjustFormulaColumnName(_,_,abs,keepRelative,dir,num,offset);_!=nil",
        "(65<=_&&_<=90)||(97<=_&&_<=122)", "48<=_&&_<=57", "_!=nil",
        "_,_,_,abs,_=adjustFormulaOperandRef(_,_,_,abs,keepRelative,dir,num,offset);_!=nil"] ∧
     Facts.C07.guardsRef =
-      ["_.Scope==\"Workbook\"||_.Scope==sheet", "_.TType==efp.TokenTypeUnknown",
+      ["_.Scope==\"Workbook\"||_.Scope==sheet", "_.TType==efp.TokenTypeUnknown", "_,_:=_[_];_",
        "_.TType==efp.TokenTypeOperand&&_.TSubType==efp.TokenSubTypeRange",
        "inStrSlice(_,_.TValue,true)!=-1", "strings.ContainsAny(_.TValue,\"[]\")", "_!=nil",
        "_:=transformParenthesesToken(_);_!=\"\"",
@@ -37,14 +37,23 @@ theorem facts_guards :
     Facts.C07.guardsParen =
       ["isFunctionStartToken(_)||isBeginParenthesesToken(_)", "isFunctionStopToken(_)||isEndParenthesesToken(_)"] ∧
     Facts.C07.guardsEscape =
-      ["strings.IndexFunc(name,func{!unicode.IsLetter(_)&&!unicode.IsNumber(_)})!=-1"] := by
+      ["strings.IndexFunc(name,func{!unicode.IsLetter(_)&&!unicode.IsNumber(_)})!=-1||needQuoteSheetName(name)"] ∧
+    Facts.C07.guardsArray =
+      ["isFunctionStartToken(_)||isBeginParenthesesToken(_)",
+       "isFunctionStartToken(_)&&_.TValue==\"ARRAY\"&&isRowStart(_+1)",
+       "isRowStart(_)&&len(_)>0&&_[len(_)-1]==\"{\"",
+       "(isFunctionStopToken(_)||isEndParenthesesToken(_))&&len(_)>0", "_==\"{\"", "_==\";\"",
+       "_[_]=\"\";_+1<len(_)&&_[_+1].TType==efp.TokenTypeArgument&&isRowStart(_+2)"] ∧
+    Facts.C07.guardsNeedQuote =
+      ["name==\"\"", "_,_:=_.DecodeRuneInString(name);unicode.IsNumber(_)",
+       "_,_,_:=CellNameToCoordinates(name);_==nil"] := by
   decide
 
 /-- Tie: literal constants of the rewriter (character classes, separator, floors, quotes). -/
 theorem facts_constants :
     Facts.C07.dollar = 36 ∧ Facts.C07.upperLo = 65 ∧ Facts.C07.upperHi = 90 ∧ Facts.C07.lowerLo = 97 ∧
     Facts.C07.lowerHi = 122 ∧ Facts.C07.digitLo = 48 ∧ Facts.C07.digitHi = 57 ∧ Facts.C07.sheetSep = 33 ∧
-    Facts.C07.sheetParts = 2 ∧ Facts.C07.colFloor = 1 ∧ Facts.C07.colFloorSet = 1 ∧ Facts.C07.rowFloor = 1 ∧
+    Facts.C07.colFloor = 1 ∧ Facts.C07.colFloorSet = 1 ∧ Facts.C07.rowFloor = 1 ∧
     Facts.C07.rowFloorSet = 1 ∧ Facts.C07.textQuote = 34 ∧ Facts.C07.sheetQuote = 39 ∧
     Facts.MaxColumns = 16384 ∧ Facts.TotalRows = 1048576 := by
   decide
@@ -379,9 +388,8 @@ theorem operand_unprefixed_same_sheet (sheet : Str) (kr : Bool) (e : Edit) (r r'
     (hg : Spec.inGrid r) (hs : Spec.shiftRef kr e r = some r') (hg' : Spec.inGrid r') :
     Impl.adjustOperand sheet sheet kr e (Spec.render r) = .ok (Spec.render r') := by
   unfold Impl.adjustOperand
-  rw [splitOn_none _ _ (render_noBang r)]
-  have h2 : ([Spec.render r].length == Facts.C07.sheetParts) = false := rfl
-  simp only [h2, Bool.false_eq_true, if_false, List.isEmpty_nil, if_true, ne_eq, not_true_eq_false]
+  rw [lastIdx_noSep _ (render_noBang r)]
+  simp only [List.isEmpty_nil, if_true, ne_eq, not_true_eq_false, if_false]
   simpa using operand_rewrite_correct kr e r r' [] hg hs hg'
 
 /-- **formula_on_other_sheet** — clause "on that sheet or any other": an unprefixed reference in a
@@ -390,48 +398,43 @@ theorem operand_unprefixed_other_sheet (sheet sheetN : Str) (kr : Bool) (e : Edi
     (hne : sheet ≠ sheetN) (hb : noBang tv) :
     Impl.adjustOperand sheet sheetN kr e tv = .ok tv := by
   unfold Impl.adjustOperand
-  rw [splitOn_none _ _ hb]
-  have h2 : ([tv].length == Facts.C07.sheetParts) = false := rfl
-  simp only [h2, Bool.false_eq_true, if_false, List.isEmpty_nil, if_true, ne_eq, hne, not_false_eq_true,
-    List.nil_append]
+  rw [lastIdx_noSep _ hb]
+  simp only [List.isEmpty_nil, if_true, ne_eq, hne, not_false_eq_true, List.nil_append]
 
 /-- … while a reference prefixed with the edited sheet's name is relocated wherever the formula
-lives (cells of other sheets, defined names with `sheetN = ""`), the prefix being re-emitted
-through `escapeSheetName`. -/
+lives (cells of other sheets, defined names with `sheetN = ""`), for EVERY sheet name — also one that
+contains `!` (repaired: the name is what precedes the last `!`) — the prefix being re-emitted through
+`escapeSheetName`. -/
 theorem operand_prefixed_edited_sheet (sheet sheetN : Str) (kr : Bool) (e : Edit) (r r' : Spec.Ref)
-    (hne : sheet ≠ []) (hb : noBang sheet)
+    (hne : sheet ≠ [])
     (hg : Spec.inGrid r) (hs : Spec.shiftRef kr e r = some r') (hg' : Spec.inGrid r') :
     Impl.adjustOperand sheet sheetN kr e (sheet ++ '!' :: Spec.render r) =
       .ok (Impl.escapeSheetName sheet ++ '!' :: Spec.render r') := by
   unfold Impl.adjustOperand
-  rw [splitOn_one _ '!' (by decide) _ _ hb (render_noBang r)]
-  have h2 : ([sheet, Spec.render r].length == Facts.C07.sheetParts) = true := rfl
+  rw [lastIdx_sep _ _ (render_noBang r)]
   have he : sheet.isEmpty = false := by
     cases sheet with
     | nil => exact absurd rfl hne
     | cons _ _ => rfl
-  simp only [h2, if_true, List.headD_cons, List.drop_one, List.tail_cons, he, Bool.false_eq_true, if_false,
-    ne_eq, not_true_eq_false]
+  simp only [take_sep, drop_sep, he, Bool.false_eq_true, if_false, ne_eq, not_true_eq_false]
   have := operand_rewrite_correct kr e r r' (Impl.escapeSheetName sheet ++ [Char.ofNat Facts.C07.sheetSep]) hg hs hg'
   rw [this]
   simp
   rfl
 
 /-- **other_sheet_refs_preserved** — clause "references to other sheets are preserved": an operand
-prefixed with another sheet's name keeps its cell part byte for byte, whatever it is. -/
+prefixed with another sheet's name (any name) keeps its cell part byte for byte, whatever it is. -/
 theorem operand_prefixed_other_sheet (sheet sheetN name cell : Str) (kr : Bool) (e : Edit)
-    (hne : name ≠ []) (hdiff : sheet ≠ name) (hb : noBang name) (hc : noBang cell) :
+    (hne : name ≠ []) (hdiff : sheet ≠ name) (hc : noBang cell) :
     Impl.adjustOperand sheet sheetN kr e (name ++ '!' :: cell) =
       .ok (Impl.escapeSheetName name ++ '!' :: cell) := by
   unfold Impl.adjustOperand
-  rw [splitOn_one _ '!' (by decide) _ _ hb hc]
-  have h2 : ([name, cell].length == Facts.C07.sheetParts) = true := rfl
+  rw [lastIdx_sep _ _ hc]
   have he : name.isEmpty = false := by
     cases name with
     | nil => exact absurd rfl hne
     | cons _ _ => rfl
-  simp only [h2, if_true, List.headD_cons, List.drop_one, List.tail_cons, he, Bool.false_eq_true, if_false,
-    ne_eq, hdiff, not_false_eq_true]
+  simp only [take_sep, drop_sep, he, Bool.false_eq_true, if_false, ne_eq, hdiff, not_false_eq_true]
   simp
   rfl
 
@@ -464,36 +467,43 @@ theorem sheet_prefix_roundtrip (name cell : Str) :
 
 /-! ## Everything that is not an adjusted range operand is rendered back verbatim -/
 
-/-- the token loop is the concatenation of the per-token pieces -/
-theorem loop_pieces (env : Impl.Env) (toks : List Token) (f : Token → Str) (val : Str)
+/-- the token loop is the concatenation of the per-token pieces (tokens that are not punctuation of
+an array constant: all marks `none`) -/
+theorem loop_pieces (env : Impl.Env) (toks : List Token) (f : Token → Str) (val : Str) (ms : List (Option Str))
+    (hm : ∀ m ∈ ms, m = none)
     (hu : ∀ t ∈ toks, t.ty ≠ .unknown)
     (hp : ∀ t ∈ toks, pieceOf env t = .ok (f t)) :
-    Impl.adjustRefLoop env val toks = (val ++ (toks.map f).flatten, none) := by
-  induction toks generalizing val with
+    Impl.adjustRefLoop env val ms toks = (val ++ (toks.map f).flatten, none) := by
+  induction toks generalizing val ms with
   | nil => simp [Impl.adjustRefLoop]
   | cons t ts ih =>
     have hu' : ∀ t ∈ ts, t.ty ≠ .unknown := fun x hx => hu x (by simp [hx])
     have hp' : ∀ t ∈ ts, pieceOf env t = .ok (f t) := fun x hx => hp x (by simp [hx])
     have hnu : t.ty ≠ .unknown := hu t (by simp)
     have h := hp t (by simp)
+    have hh : ms.headD none = none := by
+      cases ms with
+      | nil => rfl
+      | cons m _ => simpa using hm m (by simp)
+    have hm' : ∀ m ∈ ms.tail, m = none := fun m hx => hm m (List.mem_of_mem_tail hx)
     unfold Impl.adjustRefLoop
-    simp only [hnu, if_false]
+    simp only [hnu, if_false, hh]
     unfold pieceOf at h
     by_cases hr : t.ty = .operand ∧ t.sub = .range
     · simp only [hr, and_self, if_true] at h ⊢
       by_cases hn : env.names.contains t.tv = true
       · simp only [hn, if_true, Except.ok.injEq] at h ⊢
-        rw [ih _ hu' hp', h]; simp
+        rw [ih _ _ hm' hu' hp', h]; simp
       · simp only [hn, Bool.false_eq_true, if_false] at h ⊢
         by_cases hb : Impl.containsBracket t.tv = true
         · simp only [hb, if_true, Except.ok.injEq] at h ⊢
-          rw [ih _ hu' hp', h]; simp
+          rw [ih _ _ hm' hu' hp', h]; simp
         · simp only [hb, Bool.false_eq_true, if_false] at h ⊢
           rw [h]
           simp only []
-          rw [ih _ hu' hp']; simp
+          rw [ih _ _ hm' hu' hp']; simp
     · simp only [hr, if_false, Except.ok.injEq] at h ⊢
-      rw [ih _ hu' hp', h]; simp
+      rw [ih _ _ hm' hu' hp', h]; simp
 
 /-- **nonref_tokens_verbatim** — clause "string literals and function names are preserved
 verbatim" and the coordinator's "everything else is rendered back verbatim": a token that is not a
@@ -525,8 +535,8 @@ theorem defined_name_verbatim (env : Impl.Env) (tv : Str) (h : env.names.contain
   simp only [pieceOf, h, and_self, if_true]
 
 /-- a formula with a token efp cannot classify is returned unchanged -/
-theorem unknown_token_keeps_formula (env : Impl.Env) (val : Str) (t : Token) (ts : List Token)
-    (h : t.ty = .unknown) : Impl.adjustRefLoop env val (t :: ts) = (env.formula, none) := by
+theorem unknown_token_keeps_formula (env : Impl.Env) (val : Str) (ms : List (Option Str)) (t : Token) (ts : List Token)
+    (h : t.ty = .unknown) : Impl.adjustRefLoop env val ms (t :: ts) = (env.formula, none) := by
   simp [Impl.adjustRefLoop, h]
 
 /-- **formula_rewrite_correct** — the whole token loop on a formula all of whose range operands are
@@ -534,7 +544,7 @@ unprefixed references of the grammar on the edited sheet: the output is the conc
 relocated references and the verbatim renderings of all other tokens. -/
 theorem formula_rewrite_correct (sheet : Str) (e : Edit) (formula : Str)
     (toks : List Token) (refs : Token → Option (Spec.Ref × Spec.Ref))
-    (hu : ∀ t ∈ toks, t.ty ≠ .unknown)
+    (hu : ∀ t ∈ toks, t.ty ≠ .unknown) (hna : ∀ t ∈ toks, Impl.isArrayStart t = false)
     (hrefs : ∀ t ∈ toks, t.ty = .operand ∧ t.sub = .range →
       ∃ r r', refs t = some (r, r') ∧ t.tv = Spec.render r ∧ Spec.inGrid r ∧
         Spec.shiftRef false e r = some r' ∧ Spec.inGrid r') :
@@ -546,7 +556,8 @@ theorem formula_rewrite_correct (sheet : Str) (e : Edit) (formula : Str)
   have := loop_pieces ⟨sheet, sheet, false, e, [], formula⟩ toks
     (fun t => match refs t with
           | some (_, r') => if t.ty = .operand ∧ t.sub = .range then Spec.render r' else Impl.verbatim t
-          | none => Impl.verbatim t) [] hu ?_
+          | none => Impl.verbatim t) [] (Impl.arrayMarks [] none toks)
+    (arrayMarks_none toks [] hna (by simp)) hu ?_
   · simpa using this
   · intro t ht
     by_cases hr : t.ty = .operand ∧ t.sub = .range
@@ -840,34 +851,52 @@ example : refsAll (goodKey ⟨.rows, 4, 2⟩)
 
 /-! ## Where the current code does not satisfy the full statement -/
 
-/-- **finding_array_constant_rewritten** (open) — "every token shape the tokenizer can produce":
-an array constant `{1}` is tokenised by efp as pseudo-functions `ARRAY(ARRAYROW(...))`, and the
-token loop re-emits those names: the formula text `{1}` becomes `ARRAY(ARRAYROW(1))` on any
-row/column insert or delete (no reference involved). -/
-theorem finding_array_constant_rewritten :
-    Impl.adjustRef ⟨['S'], ['S'], false, ⟨.rows, 1, 1⟩, [], ['{', '1', '}']⟩
-      [⟨['A','R','R','A','Y'], .function, .start⟩, ⟨['A','R','R','A','Y','R','O','W'], .function, .start⟩,
-       ⟨['1'], .operand, .number⟩, ⟨[], .function, .stop⟩, ⟨[], .function, .stop⟩]
-      = (['A','R','R','A','Y','(','A','R','R','A','Y','R','O','W','(','1',')',')'], none) := by
-  decide
+/-- **array_constant_verbatim** (repaired in the repository; was `finding_array_constant_rewritten`) —
+"every token shape the tokenizer can produce": efp tokenises an array constant as pseudo-functions
+`ARRAY(ARRAYROW(…),ARRAYROW(…))`; the token loop renders them back as braces and row separators:
+the tokens of `SUM({1,2;3})+A3` come back as `SUM({1,2;3})+A4` (before the repair:
+`SUM(ARRAY(ARRAYROW(1,2),ARRAYROW(3)))+A4`), while an ordinary function call keeps its parentheses. -/
+theorem array_constant_verbatim :
+    Impl.adjustRef ⟨['S'], ['S'], false, ⟨.rows, 3, 1⟩, [], []⟩
+      [⟨['S','U','M'], .function, .start⟩,
+       ⟨['A','R','R','A','Y'], .function, .start⟩, ⟨['A','R','R','A','Y','R','O','W'], .function, .start⟩,
+       ⟨['1'], .operand, .number⟩, ⟨[','], .argument, .none⟩, ⟨['2'], .operand, .number⟩, ⟨[], .function, .stop⟩,
+       ⟨[','], .argument, .none⟩, ⟨['A','R','R','A','Y','R','O','W'], .function, .start⟩,
+       ⟨['3'], .operand, .number⟩, ⟨[], .function, .stop⟩, ⟨[], .function, .stop⟩, ⟨[], .function, .stop⟩,
+       ⟨['+'], .infix, .math⟩, ⟨['A','3'], .operand, .range⟩]
+      = (['S','U','M','(','{','1',',','2',';','3','}',')','+','A','4'], none) := by
+  decide +kernel
 
-/-- **finding_sheet_prefix_requoted** (open) — "quoted sheet names are preserved verbatim" holds
-only up to re-quoting: efp drops the quotes, `escapeSheetName` decides anew from the characters of
-the name. `'Sheet1'!A1` comes back as `Sheet1!A1`, `Sheet_3!A1` as `'Sheet_3'!A1`, and a name
-that Excel requires to be quoted because it starts with a digit (`'2024'!A1`) comes back bare. -/
+/-- **finding_sheet_prefix_requoted** (open, narrowed by a repair) — "quoted sheet names are preserved
+verbatim" holds only up to re-quoting: efp drops the quotes and `escapeSheetName` decides anew from
+the name. What remains after the repair is cosmetic and is what Excel itself does when it stores a
+formula: unnecessary quotes are dropped (`'Sheet1'!A1` comes back as `Sheet1!A1`), and a name with
+`_` or `.` gets quotes (`Sheet_3!A1` → `'Sheet_3'!A1`). -/
 theorem finding_sheet_prefix_requoted :
     Impl.escapeSheetName ['S','h','e','e','t','1'] = ['S','h','e','e','t','1'] ∧
-    Impl.escapeSheetName ['S','h','e','e','t','_','3'] = ['\'','S','h','e','e','t','_','3','\''] ∧
-    Impl.escapeSheetName ['2','0','2','4'] = ['2','0','2','4'] := by
-  decide
+    Impl.escapeSheetName ['S','h','e','e','t','_','3'] = ['\'','S','h','e','e','t','_','3','\''] := by
+  decide +kernel
 
-/-- **finding_sheet_name_with_bang** (open) — a sheet name containing `!` (legal in excelize and
-Excel, always quoted) makes `strings.Split(token, "!")` yield three parts; the prefix is then
-treated as part of the cell text and its letters are shifted as column names:
-`'a!b'!A3` on the edited sheet becomes `C!D!C3` when two columns are inserted at A. -/
-theorem finding_sheet_name_with_bang :
+/-- **required_quotes_kept** (repaired in the repository) — names that Excel only accepts quoted
+although they consist of letters and numbers keep their quotes: a leading digit (`2024`), a name that
+reads as a cell reference (`FY24`, `A1`), a boolean. -/
+theorem required_quotes_kept :
+    Impl.escapeSheetName ['2','0','2','4'] = ['\'','2','0','2','4','\''] ∧
+    Impl.escapeSheetName ['F','Y','2','4'] = ['\'','F','Y','2','4','\''] ∧
+    Impl.escapeSheetName ['A','1'] = ['\'','A','1','\''] ∧
+    Impl.escapeSheetName ['t','r','u','e'] = ['\'','t','r','u','e','\''] ∧
+    Impl.escapeSheetName ['F','Y'] = ['F','Y'] := by
+  decide +kernel
+
+/-- **sheet_name_with_bang** (repaired in the repository; was `finding_sheet_name_with_bang`) —
+`'a!b'!A3` (token value `a!b!A3`): on a sheet other than `a!b` the operand is left alone, and when
+`a!b` is the edited sheet it is relocated; the prefix is re-quoted. General statement:
+`operand_prefixed_edited_sheet` / `operand_prefixed_other_sheet`, now without any condition on the name. -/
+theorem sheet_name_with_bang :
     Impl.adjustOperand ['S'] ['S'] false ⟨.cols, 1, 2⟩ ['a','!','b','!','A','3'] =
-      .ok ['C','!','D','!','C','3'] := by
+      .ok ['\'','a','!','b','\'','!','A','3'] ∧
+    Impl.adjustOperand ['a','!','b'] ['S'] false ⟨.cols, 1, 2⟩ ['a','!','b','!','A','3'] =
+      .ok ['\'','a','!','b','\'','!','C','3'] := by
   decide +kernel
 
 /-- outside the property's hypothesis ("no endpoint in a deleted row/column"), recorded for the
